@@ -164,6 +164,7 @@ Member gen_file(Rng &rng, int level, const std::string &path, const std::string 
 			method = "";
 		} else {
 			size_t n = rng.below(600);
+			if (rng.chance(1, 4)) n = 128 * rng.below(6);   // fork lengths on the 128-byte padding boundary
 			Bytes fork(n);
 			for (auto &b : fork) b = rng.byte();
 			int64_t mt = 631152000 + (int64_t) rng.below(1300000000);
@@ -180,7 +181,26 @@ Member gen_file(Rng &rng, int level, const std::string &path, const std::string 
 	}
 	if (!method.empty()) {
 		m.method = method;
-		if (literal) {
+		if (literal && o.ghosts && rng.chance(1, 3)) {
+			// contents that are themselves a complete small member (header + data): a reader that resumes parsing in the
+			// middle of this member's data finds a plausible header there
+			Member g;
+			g.level = (int) rng.below(3);
+			g.method = "-lh0-";
+			g.inname = to_bytes("ghost.txt");
+			if (g.level == 2) { ExtHdr e; e.type = 1; e.data = to_bytes("ghost.txt"); g.ext.push_back(e); g.inname.clear(); }
+			g.plain = to_bytes("boo");
+			g.data = g.plain;
+			MemberLayout gl;
+			Bytes gb;
+			size_t pad = rng.below(40);
+			for (size_t i = 0; i < pad; ++i) gb.push_back(rng.byte());
+			build_member(g, gb, gl);
+			m.plain = gb;
+			if (method == "-lz5-") m.data = encode_lz5(m.plain, nullptr);
+			else if (method == "-lzs-") m.data = encode_lzs(m.plain, nullptr);
+			else m.data = m.plain;
+		} else if (literal) {
 			size_t n = rng.below((uint64_t) std::min(o.max_payload, 3000) + 1);
 			if (rng.chance(1, 4)) n = rng.below(40);
 			m.plain.resize(n);
